@@ -3,6 +3,7 @@
 mod alloc;
 mod exec;
 mod gen;
+mod miri;
 mod oracle;
 mod oracle2;
 mod rng;
@@ -70,6 +71,8 @@ fn main() {
         }
         "eval" => sup::eval_file_main(&args[2]),
         "solo" => threads::solo_main(&args[2], args[3].parse().unwrap()),
+        "miri" => std::process::exit(miri::miri_main(&args[2], args[3].parse().unwrap(), args[4].parse().unwrap(), base)),
+        "miri-eval" => std::process::exit(miri::miri_eval(&args[2])),
         "replay" => std::process::exit(sup::replay_main(&args[2])),
         "gen" => {
             let prop = &args[2];
